@@ -66,5 +66,11 @@ CLAIMS["C20"] = {
     "text": "Theorems: from_time_of_week = clamp(week*7d + ns) for all inputs; to_time_of_week of any epoch at/after the reference is (val / W, val % W) with exact casts, unique, and the two are mutually inverse; ns counters round-trip exactly below one century and are an error from one century on, and for any epoch the counter is returned iff the elapsed time in that scale is in [0, 1 century) and then equals it.",
     "note": "Trusted: Lean kernel + standard axioms; transcription of from/to_time_of_week and to_nanoseconds_in_time_scale. The day-of-year clause (f64) is exercised by the calendar checks (C08/C09 correspondence), not proved here.",
 }
+PROPS["C07"] = P(rule="epochs within +/-10 000 years of J2000 in the six uniform scales and in ET/TDB themselves (around J2000, day and century boundaries, uniform); ops: conversion to/from ET and TDB, round trip, order of instants >100 ns apart, the four duration accessors; the branch tag records bit-equality of model and implementation and the round-trip error bucket")
+CLAIMS["C07"] = {
+    "text": "PARTIAL by nature (f64::sin is unspecified libm). Theorems about the ALGORITHM (the same generic definitions the driver runs at hardware Float, instantiated at R with Real.sin): the offset added by TAI->ET deviates from the NAIF closed form 32.184 + K sin E(ET) by at most K(1+EB)M1*6K <= 3.4e-12 s; TAI->ET->TAI returns within K(1+EB)M1*(32.184+11K) <= 1.09e-8 s (< 20 ns); TAI->ET is strictly increasing (Lipschitz argument); same bounds for the ESA/TDB constants; NAIF constants in the sources = DELTET/* block of naif0012.txt, J2000 offset pinned. The binary64 evaluation is tied bit-for-bit to the implementation by the correspondence run and judged by the property's closed forms with its 30/20/100 ns tolerances.",
+    "note": "Trusted: Lean kernel + standard axioms (Mathlib Real analysis); the platform libm sin (used by both Rust and the Lean driver); Python's correctly rounded float() for the bit patterns of decimal literals; the rounding error of the binary64 evaluation is measured, not proved. TDB's forward loop has an early exit: the R theorems are stated for any estimate within 5K of the input, which covers every exit point.",
+    "technique": "Lean 4 + Mathlib theorems about the real-arithmetic algorithm (one generic definition shared with the executable Float model); Float model tied bit-for-bit to /repo by executed correspondence; property's closed forms as oracle",
+}
 ALL = ["C%02d" % i for i in range(1, 21)]
 NOT_CLAIMED = {p: "model and theorems not built yet in this round (planned, see DESIGN.md §9)" for p in ALL if p not in CLAIMS}
